@@ -1479,6 +1479,154 @@ def run_store(ctx, case):
         shutil.rmtree(tmp, ignore_errors=True)
 
 
+# ---------------------------------------------------------------------------------------------
+# histories: several comparisons through ONE ComparisonReporter instance
+# ---------------------------------------------------------------------------------------------
+def gen_sessions(ctx):
+    """2-6 calls (_metrics_table plain / rich, report) on one reporter over a pool of 2-4 races that share task names:
+    a pair and its mirror image, a race with itself, unrelated pairs, in any order"""
+    rng = ctx.rng
+    for _ in range(ctx.budget):
+        races = []
+        for _ in range(rng.choice([1, 2])):
+            b, c = gen_pair(rng, density=rng.choice([0.03, 0.15]), tasks=True, lists=rng.random() < 0.3, min_tasks=rng.choice([1, 2]))
+            races += [b, c]
+        if rng.random() < 0.5:
+            races = races[: rng.choice([2, 3])] if len(races) > 2 else races
+        calls = []
+        last = None
+        for _ in range(rng.randrange(2, 7)):
+            r = rng.random()
+            if last is not None and r < 0.35:
+                i, j = last[1], last[0]  # the mirror image of the previous comparison
+            elif r < 0.55:
+                i = j = rng.randrange(len(races))  # a race with itself
+            else:
+                i, j = rng.randrange(len(races)), rng.randrange(len(races))
+            last = (i, j)
+            calls.append({"kind": rng.choice(["rich", "rich", "plain", "report"]), "b": i, "c": j})
+        yield {"races": races, "calls": calls, "proc": rng.random() < 0.3, "fmt": rng.choice(["csv", "csv", "markdown"])}
+
+
+def _canon_rows(rows):
+    out = []
+    for row in rows:
+        if len(row) != 7:
+            out.append(["<malformed>", repr(row)])
+        else:
+            out.append([row[0], row[1], canon_val(row[2]), canon_val(row[3]), row[4], row[5], row[6]])
+    return out
+
+
+def run_session(ctx, case):
+    from esrally import metrics, reporter
+
+    races, calls, proc, fmt = case["races"], case["calls"], case["proc"], case["fmt"]
+    m = ctx.model("compare", "session", {"races": [to_model(r) for r in races], "calls": calls, "proc": proc, "init_plain": False})
+    if m.get("err") == "OutOfDomain":
+        ctx.sig(["out-of-domain"], nontrivial=False)
+        return
+    tmp = tempfile.mkdtemp(prefix="c20-sess-")
+    try:
+        path = os.path.join(tmp, "report.out")
+        with _rich_console(quiet=False):
+            rep_obj = reporter.ComparisonReporter(_cfg(path, fmt, proc))  # ONE instance for the whole history
+        file_len = 0
+        steps = []
+        for n, call in enumerate(calls):
+            b, c = races[call["b"]], races[call["c"]]
+            what = f"call {n} ({call['kind']} {call['b']}→{call['c']})"
+            got = []
+            try:
+                if call["kind"] == "report":
+                    buf = io.StringIO()
+                    with _rich_console(quiet=False), contextlib.redirect_stdout(buf):
+                        rep_obj.report(_Race(b, "base"), _Race(c, "cont"))
+                    with open(path, newline="", encoding="utf-8") as f:
+                        whole = f.read()
+                    new, file_len = whole[file_len:], len(whole)
+                    console_txt = ANSI.sub("", buf.getvalue())
+                    if not console_txt.endswith(new + "\n") or ESC in new:
+                        _fail(ctx, "file-console", f"{what}: what this report appended to the file is not its console table without colour codes", new[-300:], console_txt[-300:])
+                    got_file = list(csv.reader(io.StringIO(new, newline="")))[1:] if fmt == "csv" else None
+                    # the tables themselves, as report() builds them
+                    with _rich_console():
+                        got = [{"r": _canon_rows(rep_obj._metrics_table(metrics.GlobalStats(b), metrics.GlobalStats(c), True))},
+                               {"r": _canon_rows(rep_obj._metrics_table(metrics.GlobalStats(b), metrics.GlobalStats(c), False))}]
+                    if got_file is not None:
+                        exp_file = [[r[0], r[1], _pystr(r[2]), _pystr(r[3]), r[4], "" if r[5] is None else r[5], r[6]] for r in got[0]["r"] if len(r) == 7]
+                        mod_file = None
+                        if "r" in m["r"][n][0]:
+                            mod_file = [[r[0], r[1], _pystr(r[2]), _pystr(r[3]), r[4], "" if r[5] is None else r[5], r[6]] for r in m["r"][n][0]["r"]]
+                        if mod_file is not None and got_file != mod_file:
+                            bad = [(a, z) for a, z in zip(mod_file, got_file) if a != z][:1] or [(len(mod_file), len(got_file))]
+                            ctx.diff(f"session:{what}:file", bad[0][0], bad[0][1])
+                        if got_file != exp_file:
+                            _fail(ctx, "file-cells", f"{what}: the rows appended to the csv report are not the plain table", len(exp_file), len(got_file))
+                else:
+                    with _rich_console():
+                        got = [{"r": _canon_rows(rep_obj._metrics_table(metrics.GlobalStats(b), metrics.GlobalStats(c), call["kind"] == "plain"))}]
+            except TypeError:
+                got = [{"err": "TypeError"}] * (2 if call["kind"] == "report" else 1)
+            except (KeyError, AttributeError, ValueError, IndexError, ZeroDivisionError, OverflowError) as e:
+                got = [{"err": type(e).__name__}] * (2 if call["kind"] == "report" else 1)
+            # correspondence with the model's history
+            if m["r"][n] != got:
+                bad = None
+                for mm, gg in zip(m["r"][n], got):
+                    if "r" in mm and "r" in gg:
+                        bad = ([(a, z) for a, z in zip(mm["r"], gg["r"]) if a != z][:1] or ([(len(mm["r"]), len(gg["r"]))] if len(mm["r"]) != len(gg["r"]) else None))
+                        if bad:
+                            break
+                    elif mm != gg:
+                        bad = [(mm.get("err", "rows"), gg.get("err", "rows"))]
+                        break
+                ctx.diff(f"session:{what}", bad[0][0] if bad else None, bad[0][1] if bad else None)
+            # direct oracle on this step, against the two races that were passed to THIS call
+            errs = [g["err"] for g in got if "err" in g]
+            if errs:
+                cls = "typeerror-none-list" if _one_sided_transforms(b, c) and set(errs) == {"TypeError"} else "crash"
+                _fail(ctx, cls, f"{what}: comparison raises", "a table", errs)
+                steps.append(None)
+                continue
+            rich = got[-1]["r"] if call["kind"] != "plain" else None
+            plain = got[0]["r"] if call["kind"] != "rich" else [[ANSI.sub("", x) if isinstance(x, str) else x for x in r] for r in got[0]["r"]]
+            if rich is None:
+                # a plain table: judge it through a rich rendering of the same cells is impossible; check values only
+                parsed = [{"key": (r[0], r[1]), "base": r[2], "cont": r[3], "fb": frac(r[2]), "fc": frac(r[3]), "unit": r[5]} for r in plain if len(r) == 7 and "other" not in r[2] and "other" not in r[3]]
+                if any(isinstance(x, str) and ESC in x for r in plain for x in r):
+                    _fail(ctx, "plain-rich", f"{what}: colour codes in a plain table", None, None)
+            else:
+                parsed = oracle_rows(ctx, rich, plain, what)
+                if call["b"] == call["c"]:
+                    oracle_self(ctx, parsed, what)
+            oracle_task_values(ctx, b, c, parsed, what)
+            oracle_global_values(ctx, b, c, parsed, what)
+            oracle_count(ctx, b, c, parsed)
+            steps.append((call, parsed if rich is not None else None))
+            # the same call on a reporter of its own gives the same table
+            fresh = impl_table(b, c, call["kind"] == "plain", proc)
+            if fresh != got[-1]:
+                _fail(ctx, "session-carry-over", f"{what}: differs from the same comparison made with a fresh reporter (state carried between comparisons)",
+                      len(fresh.get("r", [])), len(got[-1].get("r", [])))
+        # mirror images anywhere in the history
+        for x in range(len(steps)):
+            for y in range(len(steps)):
+                if steps[x] and steps[y] and steps[x][1] is not None and steps[y][1] is not None and x < y:
+                    cx, cy = steps[x][0], steps[y][0]
+                    if cx["b"] == cy["c"] and cx["c"] == cy["b"]:
+                        oracle_swap(ctx, steps[x][1], steps[y][1])
+        kinds = [c["kind"] for c in calls]
+        mirrored = any(calls[x]["b"] == calls[y]["c"] and calls[x]["c"] == calls[y]["b"] and calls[x]["b"] != calls[x]["c"] for x in range(len(calls)) for y in range(x + 1, len(calls)))
+        selfc = any(c["b"] == c["c"] for c in calls[1:])
+        ctx.count("session:mirrored" if mirrored else "session:no-mirror")
+        ctx.count("session:self-after-first" if selfc else "session:no-late-self")
+        ctx.count("session:calls", len(calls))
+        ctx.sig([sorted(set(kinds)), mirrored, selfc, len(calls), any(s_ and s_[1] for s_ in steps)], nontrivial=len(calls) > 1)
+    finally:
+        shutil.rmtree(tmp, ignore_errors=True)
+
+
 def gen_consts(ctx):
     yield {"consts": True}
 
@@ -1517,6 +1665,7 @@ STREAMS = [
     Stream("tables", gen_tables, run_table, quick=1600, thorough=30000, shards=16),
     Stream("units", gen_units, run_units, quick=3000, thorough=60000, shards=8),
     Stream("task_aliasing", gen_aliasing, run_table, quick=800, thorough=15000, shards=16),
+    Stream("sessions", gen_sessions, run_session, quick=600, thorough=8000, shards=16),
     Stream("compare_store", gen_store, run_store, quick=240, thorough=3000, shards=16),
     Stream("none_lists", gen_none_lists, run_table, quick=320, thorough=6000, shards=8),
     Stream("disk_usage", gen_disk_usage, run_table, quick=240, thorough=4000, shards=8),
